@@ -18,6 +18,7 @@
 From Coq Require Import ZArith List Bool Lia.
 From BV Require Import Lib.PyVal Gen.K_heap Gen.G_heap Model.Heap.
 From BV Require Import Proofs.HeapLib Proofs.HeapIdx Proofs.HeapGeo Proofs.HeapRe Proofs.HeapInv Proofs.HeapProofs.
+From BV Require Import Model.HeapConc Proofs.HeapConcProofs Proofs.HeapConcGen.
 Import ListNotations.
 Open Scope Z_scope.
 
@@ -265,3 +266,143 @@ Example C14_witness_nested_result :
             alloc h = [(0, 2304, 2312); (0, 0, 2304)] /\ F h = [(0, 2312, 4096)] /\ arenas h = [4096] /\
             pending h = [].
 Proof. eexists. split; [vm_compute; reflexivity|]. repeat split. Qed.
+
+(* ======================================================================================
+   "from any thread ... all interleavings of allocating threads with frees that find the heap
+   lock taken" -- the small-step interleaving model (Model/HeapConc.v).
+
+   Vocabulary: a configuration = heap + lock owner + threads (pc, remaining requests) + log of the
+   blocks handed out; a thread runs RMalloc n / RFree b requests; steps of malloc: pass the assert,
+   acquire (blocks while the lock is taken), ONE iteration of the drain loop per step, the body,
+   release; steps of free: try-lock, then either "append to the pending list" (a separate, later step)
+   or drain iterations, the body, release; EAppend v = an append by a free that is no thread's request
+   (a finaliser run by the garbage collector, in the thread holding the lock or any other), enabled
+   at every moment.  A schedule is any list of EStep t / EAppend v; crun = None when it names a
+   step that is not enabled.  lin = the sequential history of the run: `Free b` when b is popped
+   from the pending list and freed, `Malloc n` / `Free b` at the bodies.
+   ====================================================================================== *)
+
+(* which statements of malloc/free are inside `with self._lock` / after the successful try-lock, as read
+   from heap.py on this run, are the ones the model's steps are cut along: in particular the drain of the
+   pending list is INSIDE the lock *)
+Theorem C14_code_lock_regions :
+  G_heap.malloc_outside = HeapConc.malloc_outside /\
+  G_heap.malloc_locked = HeapConc.malloc_locked /\
+  G_heap.free_outside = HeapConc.free_outside /\
+  G_heap.free_lock_taken = HeapConc.free_lock_taken /\
+  G_heap.free_locked = HeapConc.free_locked /\
+  G_heap.free_finally = HeapConc.free_finally /\
+  G_heap.drain_is_pop_loop = true.
+Proof. exact gen_lock_regions. Qed.
+Print Assumptions C14_code_lock_regions.
+
+(* REFINEMENT: any number of threads, any programs, any schedule (appends at any moment, also between two
+   iterations of a drain loop, any number of them): the blocks handed out, in order, and the final heap are
+   those of the sequential model on the history [lin]; with the frees still queued added as deferred
+   frees the sequential run ends in exactly the final state.  No validity hypothesis. *)
+Theorem C14_threads_refine_sequential : forall pg h0 progs sched c, pending h0 = [] ->
+  crun pg (cinit h0 progs) sched = Some (OK c) ->
+  let ops := lin pg (cinit h0 progs) sched in
+  runr pg h0 ops = OK (map snd (c_log c), set_pending (c_heap c) []) /\
+  run pg h0 (ops ++ map FreeDeferred (pending (c_heap c))) = OK (c_heap c).
+Proof. exact conc_refines. Qed.
+Print Assumptions C14_threads_refine_sequential.
+
+(* ... and an exception in an interleaved run is the exception of that sequential history *)
+Theorem C14_threads_exception_is_sequential : forall pg h0 progs sched e, pending h0 = [] ->
+  crun pg (cinit h0 progs) sched = Some (Err e) ->
+  run pg h0 (lin pg (cinit h0 progs) sched) = Err e.
+Proof. exact conc_refines_err. Qed.
+Print Assumptions C14_threads_exception_is_sequential.
+
+(* SAFETY under all interleavings: if every free (a thread's request or an EAppend) names a block that is
+   live and not already owed (in the pending list, or the block of a free in progress), and sizes pass
+   the assert, then no step raises and the invariant of C14_live_blocks / C14_partition / C14_coalesced /
+   C14_indexes_agree holds after every step (every prefix of a schedule is a schedule) *)
+Theorem C14_threads_safe : forall pg size progs sched r, pg_ok pg ->
+  cvalid_run pg (cinit (heap_init size) progs) sched ->
+  crun pg (cinit (heap_init size) progs) sched = Some r ->
+  exists c', r = OK c' /\ HeapInv (c_heap c') /\ CInv c'.
+Proof. exact conc_safe_init. Qed.
+Print Assumptions C14_threads_safe.
+
+(* one step, with what a block handed out is worth AT THE MOMENT it is handed out (pending list of any
+   content): at least max(n,1) long, inside its arena, aligned, new, disjoint from every live block,
+   carved from a best-fitting free block, or from a new arena only if every free block is too short *)
+Theorem C14_threads_step : forall pg c ev, pg_ok pg -> CInv c -> cvalid_ev c ev ->
+  match cstep pg c ev with
+  | None => True
+  | Some r =>
+    exists c', r = OK c' /\ CInv c' /\
+      (c_log c' = c_log c \/
+       exists t n b, c_log c' = c_log c ++ [(t, b)] /\ handed_out pg (c_heap c) n b (c_heap c'))
+  end.
+Proof. exact cstep_safe. Qed.
+Print Assumptions C14_threads_step.
+
+(* MUTUAL EXCLUSION: two threads are never both inside a critical section -- this is what makes
+   "one drain iteration" and "the body" single steps *)
+Theorem C14_threads_mutual_exclusion : forall pg h progs sched c t1 t2 th1 th2,
+  crun pg (cinit h progs) sched = Some (OK c) ->
+  nth_error (c_threads c) t1 = Some th1 -> nth_error (c_threads c) t2 = Some th2 ->
+  holds_lock (t_pc th1) = true -> holds_lock (t_pc th2) = true -> t1 = t2.
+Proof. exact conc_mutex. Qed.
+Print Assumptions C14_threads_mutual_exclusion.
+
+(* the blocking acquire of malloc cannot deadlock: while a thread has something left to do some thread
+   can step; and a waiting malloc is blocked exactly while the lock is held *)
+Theorem C14_threads_no_deadlock : forall pg h progs sched c,
+  crun pg (cinit h progs) sched = Some (OK c) ->
+  (exists t th, nth_error (c_threads c) t = Some th /\ (t_pc th <> PIdle \/ t_prog th <> [])) ->
+  exists t r, tstep pg c t = Some r.
+Proof. exact conc_progress_reachable. Qed.
+Print Assumptions C14_threads_no_deadlock.
+
+Theorem C14_threads_blocking : forall pg c t th n,
+  nth_error (c_threads c) t = Some th -> t_pc th = PMEnter n ->
+  (tstep pg c t = None <-> c_lock c <> None).
+Proof. exact conc_blocking. Qed.
+Print Assumptions C14_threads_blocking.
+
+(* the first malloc in a forked child (`if os.getpid() != self._lastpid: self.__init__()`): whatever heap
+   was inherited, the block comes from a fresh arena 0 of the child's own -- nothing of the parent's is used *)
+Theorem C14_fork_child : forall pg dsize inherited n, pg_ok pg -> 0 <= n < maxsize ->
+  exists b h', malloc_in_child pg dsize inherited n = OK (b, h') /\ HeapInv h' /\
+               alloc h' = [b] /\ b_arena b = 0 /\ b_start b = 0 /\ Z.max n 1 <= blen b /\
+               arenas h' = [arena_length dsize (norm_size n) pg] /\ wf (arenas h') b.
+Proof. exact malloc_in_child_ok. Qed.
+Print Assumptions C14_fork_child.
+
+(* non-vacuity: the layout P B C D E with C freed; thread 0 is in the middle of malloc(128) (lock held,
+   pending list drained) when thread 1's free(P) finds the lock taken and queues P; thread 2's malloc(8)
+   must wait (its acquire is not enabled); after thread 0 released, thread 2 drains P and gets P's place *)
+Definition ex_thr_pre : list op :=
+  [Malloc 32; Malloc 8; Malloc 64; Malloc 8; Malloc 128; Free (0, 40, 104)].
+Definition ex_thr_progs : list (list req) := [[RMalloc 128]; [RFree (0, 0, 32)]; [RMalloc 8]].
+Definition ex_thr_sched : list event :=
+  [EStep 0; EStep 0; EStep 0;          (* T0: assert, acquire, pending list empty *)
+   EStep 1; EStep 1;                   (* T1: try-lock fails, append P *)
+   EStep 2;                            (* T2: assert; now waits for the lock *)
+   EStep 0; EStep 0;                   (* T0: body, release *)
+   EStep 2; EStep 2; EStep 2; EStep 2; EStep 2].   (* T2: acquire, pop P, list empty, body, release *)
+
+Example C14_witness_threads :
+  exists h0 c,
+    run 4096 (heap_init 4096) ex_thr_pre = OK h0 /\
+    cvalid_run 4096 (cinit h0 ex_thr_progs) ex_thr_sched /\
+    crun 4096 (cinit h0 ex_thr_progs) ex_thr_sched = Some (OK c) /\
+    c_log c = [(0%nat, (0, 240, 368)); (2%nat, (0, 0, 8))] /\ c_lock c = None /\ pending (c_heap c) = [] /\
+    lin 4096 (cinit h0 ex_thr_progs) ex_thr_sched = [Malloc 128; Free (0, 0, 32); Malloc 8] /\
+    (* while thread 0 holds the lock thread 2 cannot enter *)
+    crun 4096 (cinit h0 ex_thr_progs) (firstn 6 ex_thr_sched ++ [EStep 2]) = None.
+Proof.
+  eexists. eexists. split; [vm_compute; reflexivity|].
+  split.
+  { unfold ex_thr_sched.
+    repeat (cbn [cvalid_run]; split;
+            [vm_compute; first [exact I | (split; [intro H; discriminate H|reflexivity])
+                                | (split; [auto 10|intros H; intuition congruence])] |
+             intros c' E; vm_compute in E; inversion E; subst c'; clear E]).
+    exact I. }
+  split; [vm_compute; reflexivity|]. repeat split.
+Qed.
